@@ -105,6 +105,14 @@ func (l *Lexer) atTaskKeyword() bool {
 	return !strings.HasPrefix(strings.TrimLeftFunc(after, unicode.IsSpace), token.DECLARE.String())
 }
 
+// trimCarriageReturns steps the lexer back over any carriage returns at the end of the
+// current token, a command never ends in one no matter how its line was terminated.
+func (l *Lexer) trimCarriageReturns() {
+	for l.pos > l.start && l.input[l.pos-1] == '\r' {
+		l.pos--
+	}
+}
+
 // skipWhitespace consumes any utf-8 whitespace until something meaningful is hit.
 func (l *Lexer) skipWhitespace() {
 	for {
@@ -412,9 +420,7 @@ func lexTaskCommands(l *Lexer) lexFn {
 			// If there's a newline, might be more commands on the next line
 			l.backup()
 			// The line may end in \r\n, in which case the \r is not part of the command
-			if strings.HasSuffix(l.all(), "\r") {
-				l.pos--
-			}
+			l.trimCarriageReturns()
 			l.emit(token.COMMAND)
 			l.skipWhitespace()
 		case strings.HasPrefix(l.rest(), token.LINTERP.String()):
@@ -428,9 +434,11 @@ func lexTaskCommands(l *Lexer) lexFn {
 		case r == '}':
 			l.backup()
 			// The command may end in a space which we should clean up
+			l.trimCarriageReturns()
 			if strings.HasSuffix(l.all(), " ") {
 				l.pos--
 			}
+			l.trimCarriageReturns()
 			if len(l.all()) != 0 {
 				// If we actually have a command and not just an empty token
 				l.emit(token.COMMAND)
